@@ -26,7 +26,7 @@ RULE = ('Histories on frames with df*dt in [n-0.45, n+0.45], n = 1..10, plus exa
 ASSUMPTIONS = ['expected false-alarm rate of the 6.5-sigma bands < 1e-6 per run; mutations of interest (k +- 4, variance formula) lie > 12 sigma away for k <= 40',
                'own tables have means > deviations (the library raises the mean to the deviation otherwise)', 'no bit-equality with a particular RNG call pattern is required']
 REQUIRED_CLASSES = ['stat_chi2', 'stat_gauss', 'stat_second_addition', 'obs_own_tables', 'obs_shipped', 'share_index', 'no_share_index',
-                    'truncated', 'zero_data', 'streams', 'dfdt=1', 'dfdt>=5', 'dfdt_exact_tie']
+                    'truncated', 'zero_data', 'streams', 'dfdt=1', 'dfdt>=5', 'dfdt_exact_tie', 'rejected_call', 'preloaded_constant', 'preloaded_ramp']
 
 OBS_DT = 1.4316557653333333
 
@@ -58,12 +58,18 @@ def strategy_(draw, tier):
                                'std': st.one_of(gen.finite(0.1, 50.0), gen.finite(1e-12, 1e-7)), 'floor_z': gen.finite(-1.0, 1.0)}),
         st.fixed_dictionaries({'op': st.just('from_obs'), 'tables': st.sampled_from(['own', 'own', 'shipped']),
                                'type': st.sampled_from(['chi2', 'gaussian', 'trunc']), 'share': st.booleans()}),
-        st.fixed_dictionaries({'op': st.just('zero_data')})), min_size=1, max_size=5))
+        st.fixed_dictionaries({'op': st.just('zero_data')}),
+        # a call that must be rejected (and must leave the frame as it was)
+        st.fixed_dictionaries({'op': st.just('bad_add_noise'), 'how': st.sampled_from(['no_std', 'bad_type']), 'mean': gen.finite(1.0, 50.0)}),
+        # Gaussian noise of zero width: data and mean change, the deviation stays exactly 0
+        st.fixed_dictionaries({'op': st.just('add_noise'), 'type': st.just('gaussian'), 'mean': gen.finite(1.0, 50.0),
+                               'std': st.just(0.0), 'floor_z': st.just(0.0)})), min_size=1, max_size=5))
     return dict(n=n, tie=tie, df=df, dt=dt, shape=list(shape), stat=stat, seed=draw(st.integers(0, 2 ** 31 - 1)),
                 means=means, stds=stds, ops=ops,
                 stat_mean=draw(gen.finite(1.0, 100.0)), stat_std=draw(gen.finite(0.5, 20.0)),
                 stat_std2=draw(gen.finite(0.5, 20.0)), ascending=draw(st.booleans()),
                 streams=draw(st.sampled_from([None, None, None, 'single', 'array'])),
+                preload=draw(st.sampled_from([None, None, None, 'constant', 'ramp'])),
                 v1=draw(gen.finite(0.1, 3.0)), v2=draw(gen.finite(0.1, 3.0)), vb=draw(gen.finite(0.1, 3.0)))
 
 
@@ -79,16 +85,25 @@ def run_case(case, ctx):
     obs.cls('dfdt=1' if case['n'] == 1 else ('dfdt>=5' if case['n'] >= 5 else 'dfdt=2..4'))
     if case.get('tie'):
         obs.cls('dfdt_exact_tie')
-    ok, fr = core.call(obs, 'construct', stg.Frame, fchans=N, tchans=T, df=case['df'], dt=case['dt'], fch1=6e9,
-                       ascending=case['ascending'], seed=case['seed'], t_start=0.0)
+    pre = case.get('preload') if not case['stat'] else None
+    data0 = None
+    if pre == 'constant':
+        data0 = np.full((T, N), 7.5)            # not empty, yet its deviation is exactly zero
+    elif pre == 'ramp':
+        data0 = 3.0 + np.arange(T * N, dtype=float).reshape(T, N) / (T * N)
+    ok, fr = core.call(obs, 'construct', lambda: stg.Frame(fchans=N, tchans=T, df=case['df'], dt=case['dt'], fch1=6e9,
+                                                         ascending=case['ascending'], seed=case['seed'], t_start=0.0, data=data0))
     if not ok:
         return obs
+    if pre:
+        obs.cls('preloaded_' + pre)
     if fr.chi2_df != k:
         obs.fail('degrees_of_freedom', f'{fr.chi2_df} vs {k} for df*dt = {case["df"] * case["dt"]!r}')
     NS = T * N
     # ---- no noise: SNR relations must refuse --------------------------------------------------------------
-    core.expect_raises(obs, 'get_intensity_without_noise', (ValueError,), fr.get_intensity, 10)
-    core.expect_raises(obs, 'get_snr_without_noise', (ValueError,), fr.get_snr, 10)
+    if fr.noise_std == 0:
+        core.expect_raises(obs, 'get_intensity_without_noise', (ValueError,), fr.get_intensity, 10)
+        core.expect_raises(obs, 'get_snr_without_noise', (ValueError,), fr.get_snr, 10)
 
     # ---- statistical facets ---------------------------------------------------------------------------------
     stat = case['stat']
@@ -175,6 +190,16 @@ def run_history(obs, stg, fr, case, k):
                 if fr.noise_mean != 0 or fr.noise_std != 0:
                     obs.fail('zero_data_stats', f'{fr.noise_mean},{fr.noise_std}')
                 core.expect_raises(obs, 'get_intensity_after_zero_data', (ValueError,), fr.get_intensity, 10)
+            continue
+        if name == 'bad_add_noise':
+            obs.cls('rejected_call')
+            st0 = (fr.noise_mean, fr.noise_std, fr.data.copy(), fr.rng.bit_generator.state)
+            if o['how'] == 'no_std':
+                core.expect_raises(obs, 'gaussian_without_std', (ValueError,), fr.add_noise, x_mean=o['mean'], noise_type='gaussian')
+            else:
+                core.expect_raises(obs, 'unknown_noise_type', (ValueError,), fr.add_noise, x_mean=o['mean'], x_std=1.0, noise_type='poisson')
+            if (fr.noise_mean, fr.noise_std) != st0[:2] or not np.array_equal(fr.data, st0[2]):
+                obs.fail('rejected_call_changed_frame', f'{fr.noise_mean},{fr.noise_std} vs {st0[0]},{st0[1]}')
             continue
         exp_stats = None
         floor = None
